@@ -409,6 +409,18 @@ example : (match LL.construct exCtor with
     | .error _ => (false, none)) =
     (true, some (.ok [⟨⟨1, 4⟩, ⟨1, 10⟩⟩, ⟨⟨1, 4⟩, ⟨1, 4⟩⟩, ⟨⟨1, 4⟩, ⟨1, 7⟩⟩, ⟨⟨1, 8⟩, ⟨1, 10⟩⟩])) := by
   decide +kernel
+/-- the text is the caller's text, character by character: a BOM, a zero-width space, a `\r` are characters
+like any other (only `str.isspace` characters at the end of a line are stripped, for a `str`), a column counts
+characters -/
+example : tokLines ws (.str "\uFEFFab \r\ncd\u200B\t".toList) = ["\uFEFFab".toList, "cd\u200B".toList] := by
+  decide +kernel
+example : tokenize B ⟨[], [], [], 0⟩
+    (reOfTable [] [⟨[some ⟨1, 3, 0, 1⟩, some ⟨3, 4, 1, 3⟩, some ⟨3, 4, 2, 3⟩], []⟩])
+    (tokLines ws (.str "\uFEFFab".toList)) =
+    .ok [⟨3, some "\uFEFF".toList, ⟨1, 1⟩, ⟨1, 2⟩⟩, ⟨4, some "ab".toList, ⟨1, 2⟩, ⟨1, 4⟩⟩, ⟨0, none, ⟨1, 4⟩, ⟨1, 4⟩⟩] := by
+  decide +kernel
+example : getOrigText B (origLines (.str "\uFEFFab \r\ncd".toList)) ⟨1, 2⟩ ⟨1, 4⟩ = .ok "ab".toList := by
+  decide +kernel
 example : ReAdv ⟨fun _ _ => none, fun _ _ _ => none⟩ := ⟨by simp, by simp⟩
 /-- a lexical error: `?` on line 2, column 3 (0-based) -/
 example : tokenize B ⟨[], [], [], 0⟩
